@@ -273,6 +273,12 @@ def evaluate(case):
                 for fac in (1.01, 2, 10):
                     items.append((kind, _perturb(d2, fac * tol), tol, "any", f"near{fac}"))
     elif case["fam"] == "same":
+        # the same outline written differently (one command per line, tabs, CR LF, trailing newline): still the same shape
+        import re as _re
+
+        for sp in (_re.sub(r"\s*([A-Za-z])", lambda m: "\n" + m.group(1), d1).lstrip("\n") + "\n", _re.sub(r"\s*([A-Za-z])", lambda m: "\t" + m.group(1), d1), d1.replace(" ", "\r\n ") + " "):
+            for tol in TOLS:
+                items.append(("respelled", sp, tol, "identity", "same"))
         for tol in TOLS + [2.0, 10.0]:
             items.append(("same", d1, tol, "identity", "same"))
             # same numbers, one arc flag toggled: a different outline
